@@ -230,3 +230,6 @@ Proof.
   assert (Hf : 0 <= (INR (length y) - 1) / (INR (length y) - 2)) by (apply Rdiv_nonneg; lra).
   nra.
 Qed.
+Theorem r2_adjusted_of_classic (y yh : list R) :
+  @r2 RNum y yh R2adjusted = 1 - (1 - @r2 RNum y yh R2classic) * ((INR (length y) - 1) / (INR (length y) - 2)).
+Proof. rewrite r2_def. exact (r2_adjusted_def y yh). Qed.
